@@ -35,7 +35,7 @@ def gen_scenario(rnd, sid, ndev, nsteps):
             continue
         x = rnd.random()
         if x < 0.38:
-            steps.append("%dR%d" % (d, rnd.randrange(7)))
+            steps.append("%dR%d" % (d, rnd.randrange(9)))
         elif x < 0.62:
             steps.append("%dE%d" % (d, rnd.randrange(7)))
         elif x < 0.70:
@@ -69,7 +69,7 @@ def gen_scenario(rnd, sid, ndev, nsteps):
                 steps.append("%dF%d" % (d, rnd.randrange(3)))
                 for _ in range(rnd.randrange(2, 7)):
                     kind = rnd.choice("RRREEreK")
-                    v = rnd.randrange(7)
+                    v = rnd.randrange(9 if kind == "R" else 7)
                     if kind == "E" and v == 4:
                         v = 5   # (a mid-stream connection success waits for its SetReaderConfig exchange)
                     steps.append("%d%s%d" % (d, kind, v))
@@ -146,6 +146,9 @@ def judge(scn, line):
             continue
         if t.startswith("!badgen"):
             continue
+        if t.startswith("!decoder-vs-source"):
+            bad.append(("content-differs", "the library's decoding of a message's bytes differs from the value that was encoded (%s)" % t))
+            continue
         if t.startswith("!"):
             bad.append(("odd:" + t.split(":")[0][1:], "irregular value on the channel: " + t))
             continue
@@ -197,6 +200,8 @@ def run(tier, seed, replay=None):
                 "5 2 18 0@aR1 0@aE0 0@bR2 0@cE3 1@ar0 1@aR3 1@cR4 0R5 1R6 0E1 1E2",
                 "6 3 19 0R1 0r0 0R2 0U0 0R3 0E1 1R1 1r1 1U1 1R2 1E0 2R1 2r2 2X 2R2 2E3 1Z 0R4 2R5 0X 0R6 0e0 0U0 0E2",
                 "9 3 20 0+1 1+2o 2+n4 0R1 1R2 2E0 0E1 1E3 2R4",
+                "11 2 22 0R7 1R8 0R7 1R7 0R8 1E0 0E1 1R0 0R1 1R2",
+                "12 3 23 0R1 1R2 2R3 0P65 0R4 1R5 2R6 0E0 1E1 2E2 0R7 1R8 2R0 0R2 1R3 2R4 0E5 1E6 2E3 0R1 1R1 2R1",
                 "10 2 21 0R1 0F0 0R2 0E1 0K 0R3 0G 0R4 1R1 1F2 1E2 1R5 1G 1E3 0F1 0R6 0e0 0E5 0G 0R0",
                 "2 2 13 0R1 1M 0C0 0R2 1L 1R3 0E0 1R4 0K 1E1",
                 "1 3 12 " + " ".join("%d%s%d" % (d, k, v) for v in range(7) for k in "RE" for d in range(3))]
@@ -204,8 +209,11 @@ def run(tier, seed, replay=None):
         if thorough:
             # the deadlines of the service itself (20 s): a command through the driver whose reply comes
             # in two pieces 21 s apart, and a SetReaderConfig that is never answered
-            scns += ["7 2 16 0R1 1R1 0T9 1E0 0R2 0E3 1R4", "8 2 17 0+w 0R1 1R1 0E1 1E2 0R3"]
-        for sid in range(11, n):
+            scns += ["7 2 16 0R1 1R1 0T9 1E0 0R2 0E3 1R4", "8 2 17 0+w 0R1 1R1 0E1 1E2 0R3",
+                     # the consumer of the channel stalls for 15 s and 25 s
+                     "13 3 24 0R1 1R2 2R3 1P150 0R4 1R5 2R6 0E0 1E1 2E2 0R7 1R8 2R0 0R2 1R3 2R4",
+                     "14 2 25 0R1 1R2 0P250 0R4 1R5 0E0 1E1 0R7 1R8 0R2 1R3 0E5 1E6"]
+        for sid in range(15, n):
             ndev = rnd.choice([2, 2, 3, 3, 1])
             nsteps = rnd.choice([8, 20, 40, 80] + ([200, 400] if thorough else []))
             scn = gen_scenario(rnd, sid, ndev, nsteps)
@@ -312,7 +320,7 @@ def run(tier, seed, replay=None):
     def model_differs(g, o):
         # connection events are judged against what the readers really sent (judge); the comparison
         # with the model is about the messages of the script
-        conn = re.compile(r"^\d:(REN|RO):2\d\d\d$")
+        conn = re.compile(r"^\d:(REN|RO):[23]\d\d\d$")
         ot = sorted(t for t in o.split(" | ")[0].split()[1:] if not conn.match(t))
         gt = sorted(t for t in g.split(" | ")[0].split()[1:] if not t.startswith("!badgen") and not conn.match(t))
         return gt != ot or "expected_ok=1" not in o or "pending=0" not in o
